@@ -194,7 +194,10 @@ def run(ctx):
     b += [("rdb-partition", c03.part_history) for _ in range(4 if ctx.tier == "quick" else 80)]
     # undelete: every block of the entry that comes back is allocated again, a refused undelete marks nothing
     from . import undel
-    b += [("undelete", undel.history) for _ in range(24 if ctx.tier == "quick" else 400)]
+    for kind in undel.KINDS:
+        for fl in (ctx.rng.choice([4, 5]), ctx.rng.choice([0, 1, 2, 3])):
+            b.append(("undelete", (lambda k, f: (lambda c: undel.history(c, k, f)))(kind, fl)))
+    b += [("undelete", undel.history) for _ in range(6 if ctx.tier == "quick" else 400)]
     rule = ("bit-index calls on volumes with 1..3 bitmap pages at page/word boundaries; histories (multi-page hardfiles crossing the 4064-block page boundary, "
             "file and namespace histories, forced and real exhaustion episodes, DIRCACHE directories grown over several cache blocks and emptied, RDB partition with non-zero first block) judged at every dump by the extracted decoder: each reachable block reached once, "
             "in range, marked allocated in the ON-DISK bitmap (dumps are taken with and without remount); distinct = distinct call / script")
